@@ -85,6 +85,7 @@ func (e *Engine) builtin(st *State, fr *Frame, b *ssa.Builtin, cc *ssa.CallCommo
 			// model, so this is not generated as an obligation (listed under "not decided").
 		}
 		st.Heap["chan.closed"] = c.Store(e.heapArr(st, "chan.closed", smt.Bool), ch, c.True())
+		st.Touched[ch] = st.Epoch
 		return nil
 	case "panic":
 		if checks {
